@@ -50,6 +50,9 @@ type world struct {
 	jobObserver  func(target kv.Family, isRollup bool, err error) // additional observer of rollup job commits (part crash)
 	unstable     []string                                         // old-version-bookkeeping-stable witnesses of the last rollup step
 	heldVersions int
+	reverse      bool    // roll the source families up in descending order of their family time (default ascending)
+	onlyFams     []int64 // rollup visits only these source families
+	forceFam     int64   // the next batch goes into this source family (0: the history's batch plan)
 }
 
 func newWorld(dir string, c *Case) (*world, error) {
@@ -82,6 +85,9 @@ func (w *world) writeBatch() error {
 	k := w.m.nBatch
 	w.m.nBatch++
 	fam, slots := batchPlan(w.c, k)
+	if w.forceFam != 0 {
+		fam, slots = w.forceFam, []int{k%100 + 2, 357 - k%100}
+	}
 	var pts []vbox.Point
 	for si, s := range w.m.shape {
 		for _, slot := range slots {
@@ -124,11 +130,19 @@ func idle(f kv.Family) error {
 }
 
 func (w *world) famTimes() []int64 {
+	if w.onlyFams != nil {
+		return w.onlyFams
+	}
 	var fts []int64
 	for ft := range w.m.fams {
 		fts = append(fts, ft)
 	}
 	sort.Slice(fts, func(i, j int) bool { return fts[i] < fts[j] })
+	if w.reverse {
+		for i, j := 0, len(fts)-1; i < j; i, j = i+1, j-1 {
+			fts[i], fts[j] = fts[j], fts[i]
+		}
+	}
 	return fts
 }
 
